@@ -268,6 +268,7 @@ body(int i)
 		finied[i] = 1;
 		break;
 	case 'b': /* process ready; two threads trace concurrently */
+	case 'e': /* the same with three threads */
 		script_full(i);
 		break;
 	case 'c': /* two threads race proc_fini */
@@ -367,7 +368,7 @@ run_threads(int n)
 static int
 nthreads_of(int sc)
 {
-	return sc == 'a' ? 3 : 2;
+	return (sc == 'a' || sc == 'e') ? 3 : 2;
 }
 
 /* compare the files of thread i (loom L, pid P) with the solo reference */
@@ -399,7 +400,7 @@ execute(int sc, int tmpmode, FILE *out)
 	scenario = sc;
 	setup_env(rundir, tmpmode);
 	int n = nthreads_of(sc);
-	if (sc == 'b' || sc == 'c')
+	if (sc == 'b' || sc == 'c' || sc == 'e')
 		ovni_proc_init(1, "L0", 500);
 	run_threads(n);
 	char verdict[256] = "ok";
@@ -431,7 +432,7 @@ execute(int sc, int tmpmode, FILE *out)
 				snprintf(verdict, sizeof(verdict), "loser %d neither returned nor was refused", i);
 			}
 		}
-	} else if (sc == 'b') {
+	} else if (sc == 'b' || sc == 'e') {
 		for (int i = 0; i < n && strcmp(verdict, "ok") == 0; i++) {
 			if (!completed[i])
 				snprintf(verdict, sizeof(verdict), "thread %d was refused although the process was ready", i);
@@ -464,7 +465,7 @@ execute(int sc, int tmpmode, FILE *out)
 static void
 make_refs(void)
 {
-	const char scs[] = "abd";
+	const char scs[] = "abde";
 	for (int s = 0; scs[s]; s++) {
 		for (int i = 0; i < nthreads_of(scs[s]); i++) {
 			char d[600];
